@@ -91,6 +91,34 @@ class C08(core.Prop):
                     ops.append(["write", 0, devs[di]["name"], tv, [[vt["elements"][j]["name"], "reply-%d-%d" % (n, k)]]])
             cases.append({"devices": devs, "clients": clients, "ops": ops, "seed": k, "sizes": mine})
             k += 1
+        # the empty payload is a payload: written over a non-empty one and over nothing, in both directions,
+        # and a non-empty one after it
+        for rep in range(4 if tier == "quick" else 40):
+            dev = all_on(drvgen.gen_definition(rng, "DEV0", depth=1, kinds=["BLOB", "Text"]))
+            vecs = drvgen.all_vectors(dev)
+            bl = [vn for vn in sorted(vecs) if vecs[vn][1]["kind"] == "BLOB"]
+            if not bl:
+                continue
+            vn = rng.choice(bl)
+            names = [e["name"] for e in vecs[vn][1]["elements"]]
+            i, j = rng.randrange(len(names)), rng.randrange(len(names))
+            clients = [{"kind": "net", "up": rng.choice(sysgen.FRAGS), "down": rng.choice(sysgen.FRAGS)},
+                       {"kind": "net", "up": rng.choice(sysgen.FRAGS), "down": rng.choice(sysgen.FRAGS)}]
+            ops = [["handshake", 0], ["handshake", 1], ["enable", 1, "ctl", dev["name"], "Also"], ["enable", 1, "blob", dev["name"], "Never"]]
+            if rep % 2 == 0:
+                ops += [["drv", 0, ["assign", vn, i, [payload(rng, 5), ".first"]]],
+                        ["drv", 0, ["assign", vn, i, [[], rng.choice(FORMATS)]]],
+                        ["drv", 0, ["assign", vn, j, [[], ".e2"]]],
+                        ["drv", 0, ["assign", vn, i, [payload(rng, 7), ".last"]]],
+                        ["drv", 0, ["assign", vn, i, [[], ""]]]]
+            else:
+                ops += [["write", 0, dev["name"], vn, [[names[i], [payload(rng, 5), ".first"]]]],
+                        ["write", 0, dev["name"], vn, [[names[i], [[], rng.choice(FORMATS)]]]],
+                        ["write", 1, dev["name"], vn, [[names[j], [[], ".e2"]]]],
+                        ["write", 0, dev["name"], vn, [[names[i], [payload(rng, 7), ".last"]]]],
+                        ["write", 1, dev["name"], vn, [[names[i], [[], ""]]]]]
+            cases.append({"devices": [dev], "clients": clients, "ops": ops, "seed": k, "sizes": [5, 0, 0, 7, 0]})
+            k += 1
         # two payloads back to back on one connection, the first longer than any transport slice
         for n in ([70000, 200000] if tier == "quick" else [66000, 70000, 131073, 200000, 500000, 1048576]):
             dev = all_on(drvgen.gen_definition(rng, "DEV0", depth=1, kinds=["BLOB"]))
